@@ -8,7 +8,6 @@ import (
 	"go/token"
 	"go/types"
 	"strings"
-
 )
 
 func init() {
@@ -80,17 +79,17 @@ func c05R7(c *Ctx, r *Report) {
 }
 
 var c06R5Reviewed = map[string]string{
-	"checkTypeCompatibility":        "the one weakening &'T -> &T (value position) and exact match otherwise",
-	"validateCallArgumentTypes":     "argument vs parameter: a &' parameter needs a &' argument",
-	"checkAssignStmt":               "assignment through / to references: requires a mutable reference",
-	"checkBuiltinAppend":            "append needs &'",
-	"checkIncDecTarget":             "++/-- through a reference needs &'",
-	"checkSelectorExpr":             "&'-receiver method call needs a mutable receiver",
-	"findImmutableRefInChain":       "mutability gate helper: finds an immutable reference in the place chain",
-	"checkExpr":                     "type of a borrow expression",
-	"TypeFromTypeNodeWithContext":   "builds ReferenceType from the type syntax",
-	"checkBorrowExpr":               "mutable borrow through an immutable reference is rejected",
-	"checkMutability":               "mutability gate",
+	"checkTypeCompatibility":      "the one weakening &'T -> &T (value position) and exact match otherwise",
+	"validateCallArgumentTypes":   "argument vs parameter: a &' parameter needs a &' argument",
+	"checkAssignStmt":             "assignment through / to references: requires a mutable reference",
+	"checkBuiltinAppend":          "append needs &'",
+	"checkIncDecTarget":           "++/-- through a reference needs &'",
+	"checkSelectorExpr":           "&'-receiver method call needs a mutable receiver",
+	"findImmutableRefInChain":     "mutability gate helper: finds an immutable reference in the place chain",
+	"checkExpr":                   "type of a borrow expression",
+	"TypeFromTypeNodeWithContext": "builds ReferenceType from the type syntax",
+	"checkBorrowExpr":             "mutable borrow through an immutable reference is rejected",
+	"checkMutability":             "mutability gate",
 }
 
 // C06.R5: who may read ReferenceType.Mutable in the type checker.
